@@ -104,6 +104,8 @@ def load_pair(fmt, epoch=0.0, shifted=False, geometry=None):
 def file_args(fmt, epoch=0.0, shifted=False, geometry=None):
     if geometry == "same":
         return ["tum", "ref.txt", "ref.txt"]
+    if geometry in ("nonl", "crlf"):
+        return ["tum", "ref.txt", "est1_%s.txt" % geometry]
     if geometry:
         return ["tum", "ref_%s.txt" % geometry, "est1_%s.txt" % geometry]
     e = "_e" if epoch else ""
